@@ -3,9 +3,9 @@ CONSTANTS
   Node = {n1, n2, n3}
   MaxTerm = 2
   MaxLog = 4
-  NonCmdKinds = {"C","B"}
+  NonCmdKinds = {}
   WarmStart = TRUE
-  MaxRestarts = 0
+  MaxRestarts = 1
   UpgradeStrong = TRUE
   VerifyQuorum = TRUE
   RecheckTerm = TRUE
@@ -13,4 +13,4 @@ CONSTANTS
   SignalConfig = TRUE
   SignalBarrier = TRUE
 SYMMETRY Sym
-INVARIANTS StateMachineSafety ReadLin NoStuckRead
+INVARIANTS StateMachineSafety OneLeaderPerTerm ReadLin NoStuckRead ServedAfterProtocol
